@@ -1,12 +1,805 @@
-//! C03: harness not built yet.
+//! C03: secured messages are accepted only if authentic for that session and direction.
+//!
+//! One case = one receiving node (a real `Matter` whose session table is filled through the `verif`
+//! hook), a set of sending sessions (stand-alone real `Session` objects), datagrams produced by
+//! the real encoder (`Session::pre_send` + `Session::encode`, real AES-CCM of the rustcrypto
+//! backend) and deliveries of (mutated) datagrams to the real `decode_packet`.
+//!
+//! Lines (all numbers decimal unless marked hex):
+//!  `s a=<addr> m=<N|P|C|G<gid>> ls=<lsid> ps=<psid> ln=<hex> pn=<hex|-> dk=<k> ek=<k> tx=<ctr> [ex=<id><I|R>,..] [expired=1]`
+//!        install the next session of the receiver's table            => `ok <summary> #<hash>`
+//!  `t <name> …same keys…`   a sending session                          => `ok`
+//!  `x <dg> t=<name> k=<pre|raw> pf= sid= sf= ctr= src=<hex> dst=<hex> xf= op= xid= pid= vid= ack= pl=<len> ps=<seed>`
+//!        encode one datagram (`pre`: the real pre_send stamps the plain header)  => `dg <hex>` | `err <Code>`
+//!  `r <dg> a=<addr> m=<none|flip:<bit>|trunc:<len>|ext:<hex>|xor:<off>:<hex>|hdr:<dg2>>`
+//!        deliver to the receiver => `<ok:new|ok:old|err:Code|panic> [h=<plain>/<proto> p=<hex>] S=<hash,..> [C<i>=<summary>]..`
+use crate::proto::{hex, parse_cases, unhex, Case, Out};
+use crate::rng::Rng;
 use crate::Args;
 
-pub fn gen(_a: &Args) -> String {
-    eprintln!("C03: harness not built yet");
-    std::process::exit(2);
+use std::collections::HashMap;
+use std::fmt::Write as _;
+use std::net::{IpAddr, Ipv6Addr, SocketAddr};
+use std::num::NonZeroU8;
+use std::panic::{catch_unwind, AssertUnwindSafe};
+
+use rs_matter::crypto::{test_only_crypto, Crypto};
+use rs_matter::dm::devices::test::{TEST_DEV_ATT, TEST_DEV_COMM, TEST_DEV_DET};
+use rs_matter::transport::network::Address;
+use rs_matter::transport::packet::PacketHdr;
+use rs_matter::transport::plain_hdr::PlainHdr;
+use rs_matter::transport::proto_hdr::ProtoHdr;
+use rs_matter::transport::session::{Session, SessionMode};
+use rs_matter::transport::TransportRunner;
+use rs_matter::utils::storage::{ParseBuf, WriteBuf};
+use rs_matter::Matter;
+
+fn addr(n: u64) -> Address {
+    Address::Udp(SocketAddr::new(IpAddr::V6(Ipv6Addr::LOCALHOST), 1000 + n as u16))
 }
 
-pub fn replay(_a: &Args) -> String {
-    eprintln!("C03: harness not built yet");
-    std::process::exit(2);
+/// key number `k`: first two bytes = k (LE), then a fixed pattern (distinct k => distinct keys)
+fn key(k: u64) -> [u8; 16] {
+    let mut b = [0u8; 16];
+    b[0] = k as u8;
+    b[1] = (k >> 8) as u8;
+    for i in 2..16 {
+        b[i] = 0xA5u8.wrapping_add(i as u8 * 17);
+    }
+    b
+}
+
+pub fn payload(len: usize, seed: u64) -> Vec<u8> {
+    (0..len).map(|i| (seed.wrapping_mul(31).wrapping_add(i as u64 * 7).wrapping_add((i as u64 >> 8) * 13) & 0xff) as u8).collect()
+}
+
+fn fnv(s: &str) -> String {
+    let mut h: u64 = 0xcbf29ce484222325;
+    for b in s.bytes() {
+        h ^= b as u64;
+        h = h.wrapping_mul(0x100000001b3);
+    }
+    format!("{:016x}", h)
+}
+
+fn kv(op: &str) -> HashMap<String, String> {
+    let mut m = HashMap::new();
+    for w in op.split_whitespace() {
+        if let Some((k, v)) = w.split_once('=') {
+            m.insert(k.to_string(), v.to_string());
+        }
+    }
+    m
+}
+
+fn num(m: &HashMap<String, String>, k: &str) -> u64 {
+    m.get(k).and_then(|v| v.parse().ok()).unwrap_or(0)
+}
+
+fn hexnum(m: &HashMap<String, String>, k: &str) -> Option<u64> {
+    m.get(k).and_then(|v| if v == "-" { None } else { u64::from_str_radix(v, 16).ok() })
+}
+
+fn mode_of(s: &str) -> SessionMode {
+    match s.chars().next() {
+        Some('P') => SessionMode::Pase { fab_idx: 0 },
+        Some('C') => SessionMode::Case { fab_idx: NonZeroU8::new(1).unwrap(), cat_ids: Default::default() },
+        Some('G') => SessionMode::Group { fab_idx: NonZeroU8::new(1).unwrap(), group_id: s[1..].parse().unwrap_or(0) },
+        _ => SessionMode::PlainText,
+    }
+}
+
+fn install(sess: &mut Session, m: &HashMap<String, String>) {
+    sess.verif_install(
+        num(m, "ls") as u16,
+        num(m, "ps") as u16,
+        hexnum(m, "ln").unwrap_or(0),
+        hexnum(m, "pn"),
+        &key(num(m, "dk")),
+        &key(num(m, "ek")),
+        mode_of(m.get("m").map(|s| s.as_str()).unwrap_or("N")),
+    );
+    if let Some(ex) = m.get("ex") {
+        for e in ex.split(',') {
+            if e.len() < 2 {
+                continue;
+            }
+            let (id, role) = e.split_at(e.len() - 1);
+            sess.verif_add_exch(id.parse().unwrap_or(0), role == "I");
+        }
+    }
+    if num(m, "expired") == 1 {
+        sess.verif_set_expired(true);
+    }
+}
+
+/// (summary, hash of the complete state rendering)
+fn snap(s: &Session, hide_tx: bool) -> (String, String) {
+    let mut full = String::new();
+    let _ = s.verif_snapshot(&mut full);
+    let mut summary = full.split(" | ").next().unwrap_or("").replace(' ', ";");
+    if hide_tx {
+        // a session created by the code under test starts from a random send counter
+        let parts: Vec<String> = summary.split(';').map(|p| if p.starts_with("tx=") { "tx=?".to_string() } else { p.to_string() }).collect();
+        summary = parts.join(";");
+    }
+    (summary, fnv(&full))
+}
+
+struct World<'a, C: Crypto> {
+    matter: &'a Matter<'a>,
+    crypto: &'a C,
+    installed: usize,
+    senders: HashMap<String, Session>,
+    dgs: HashMap<String, Vec<u8>>,
+    prev: Vec<String>,
+}
+
+fn err_name(e: &rs_matter::error::Error) -> String {
+    format!("{:?}", e.code())
+}
+
+impl<'a, C: Crypto> World<'a, C> {
+    fn reset(&mut self) {
+        self.matter.with_state(|st| {
+            let ids: Vec<u32> = st.verif_sessions().iter().map(|s| s.id()).collect();
+            for id in ids {
+                st.verif_sessions().remove(id);
+            }
+        });
+        self.installed = 0;
+        self.senders.clear();
+        self.dgs.clear();
+        self.prev.clear();
+    }
+
+    fn snapshots(&self) -> Vec<(String, String)> {
+        let installed = self.installed;
+        self.matter.with_state(|st| st.verif_sessions().iter().enumerate().map(|(i, s)| snap(s, i >= installed)).collect())
+    }
+
+    fn op_s(&mut self, m: &HashMap<String, String>) -> String {
+        let r = self.matter.with_state(|st| {
+            let sess = st.verif_sessions().add(num(m, "tx") as u32, false, addr(num(m, "a")), hexnum(m, "pn"), &TEST_DEV_DET);
+            match sess {
+                Ok(sess) => {
+                    install(sess, m);
+                    let (a, b) = snap(sess, false);
+                    Ok((a, b))
+                }
+                Err(e) => Err(err_name(&e)),
+            }
+        });
+        match r {
+            Ok((sum, h)) => {
+                self.installed += 1;
+                self.prev.push(h.clone());
+                format!("ok {} #{}", sum, h)
+            }
+            Err(e) => format!("err {}", e),
+        }
+    }
+
+    fn op_t(&mut self, name: &str, m: &HashMap<String, String>) -> String {
+        let mut s = Session::new(1000 + self.senders.len() as u32, num(m, "tx") as u32, false, addr(num(m, "a")), hexnum(m, "pn"), 300, 300, 4000);
+        install(&mut s, m);
+        self.senders.insert(name.to_string(), s);
+        "ok".into()
+    }
+
+    fn op_x(&mut self, name: &str, m: &HashMap<String, String>) -> String {
+        let Some(sess) = self.senders.get_mut(m.get("t").map(|s| s.as_str()).unwrap_or("")) else {
+            return "skip".into();
+        };
+        let plain = PlainHdr::verif_from_parts(num(m, "pf") as u8, num(m, "sid") as u16, num(m, "sf") as u8, num(m, "ctr") as u32, hexnum(m, "src").unwrap_or(0), hexnum(m, "dst").unwrap_or(0));
+        let proto = ProtoHdr::verif_from_parts(num(m, "xf") as u8, num(m, "op") as u8, num(m, "xid") as u16, num(m, "pid") as u16, num(m, "vid") as u16, num(m, "ack") as u32);
+        let (Some(plain), Some(proto)) = (plain, proto) else {
+            return "err BadFlags".into();
+        };
+        let mut hdr = PacketHdr::new();
+        hdr.plain = plain;
+        hdr.proto = proto;
+        let pl = payload(num(m, "pl") as usize, num(m, "ps"));
+        let pre = m.get("k").map(|s| s == "pre").unwrap_or(false);
+        let crypto = self.crypto;
+        let r = catch_unwind(AssertUnwindSafe(|| -> Result<Vec<u8>, String> {
+            if pre {
+                sess.verif_pre_send(&mut hdr).map_err(|e| err_name(&e))?;
+            }
+            let mut buf = vec![0u8; 2048];
+            let mut wb = WriteBuf::new(&mut buf);
+            wb.reserve(PacketHdr::HDR_RESERVE).map_err(|e| err_name(&e))?;
+            wb.append(&pl).map_err(|e| err_name(&e))?;
+            sess.verif_encode(crypto, &hdr, &mut wb).map_err(|e| err_name(&e))?;
+            Ok(wb.as_slice().to_vec())
+        }));
+        match r {
+            Ok(Ok(d)) => {
+                let h = hex(&d);
+                self.dgs.insert(name.to_string(), d);
+                format!("dg {}", h)
+            }
+            Ok(Err(e)) => format!("err {}", e),
+            Err(_) => "panic".into(),
+        }
+    }
+
+    fn hdr_len(d: &[u8]) -> Option<usize> {
+        let mut c = d.to_vec();
+        let mut pb = ParseBuf::new(&mut c);
+        let mut h = PlainHdr::new();
+        h.decode(&mut pb).ok()?;
+        Some(pb.read_off())
+    }
+
+    fn mutate(&self, d: &[u8], m: &str) -> Option<Vec<u8>> {
+        let mut d = d.to_vec();
+        let mut it = m.splitn(3, ':');
+        match it.next().unwrap_or("") {
+            "none" => {}
+            "flip" => {
+                let bit: usize = it.next()?.parse().ok()?;
+                if bit / 8 >= d.len() {
+                    return None;
+                }
+                d[bit / 8] ^= 1 << (bit % 8);
+            }
+            "trunc" => {
+                let n: usize = it.next()?.parse().ok()?;
+                d.truncate(n);
+            }
+            "ext" => d.extend_from_slice(&unhex(it.next()?)),
+            "xor" => {
+                let off: usize = it.next()?.parse().ok()?;
+                for (i, b) in unhex(it.next()?).iter().enumerate() {
+                    if off + i < d.len() {
+                        d[off + i] ^= b;
+                    }
+                }
+            }
+            "hdr" => {
+                // the plain header of another datagram in front of this one's cipher text
+                let other = self.dgs.get(it.next()?)?;
+                let (ho, hd) = (Self::hdr_len(other)?, Self::hdr_len(&d)?);
+                let mut n = other[..ho].to_vec();
+                n.extend_from_slice(&d[hd..]);
+                d = n;
+            }
+            _ => return None,
+        }
+        Some(d)
+    }
+
+    fn op_r(&mut self, name: &str, m: &HashMap<String, String>, out: &mut Out) -> String {
+        let Some(d) = self.dgs.get(name) else {
+            return "skip".into();
+        };
+        let Some(d) = self.mutate(d, m.get("m").map(|s| s.as_str()).unwrap_or("none")) else {
+            return "skip".into();
+        };
+        let runner = TransportRunner::new(self.matter, self.crypto);
+        let from = addr(num(m, "a"));
+        let r = catch_unwind(AssertUnwindSafe(|| {
+            runner.verif_decode_datagram(from, &d, |res, hdr, pl| match res {
+                Ok(new) => {
+                    let p = hdr.plain.verif_parts();
+                    let x = hdr.proto.verif_parts();
+                    format!(
+                        "ok:{} h={}:{}:{}:{}:{:x}:{:x}/{}:{}:{}:{}:{}:{} p={}",
+                        if new { "new" } else { "old" },
+                        p.0, p.1, p.2, p.3, p.4, p.5, x.0, x.1, x.2, x.3, x.4, x.5,
+                        hex(pl)
+                    )
+                }
+                Err(e) => format!("err:{}", err_name(&e)),
+            })
+        }));
+        let mut s = match r {
+            Ok(Ok(s)) => s,
+            Ok(Err(e)) => format!("err:{}", err_name(&e)),
+            Err(_) => "panic".into(),
+        };
+        out.stat(&format!("res_{}", s.split_whitespace().next().unwrap_or("").replace(':', "_")), 1);
+        let snaps = self.snapshots();
+        let hashes: Vec<String> = snaps.iter().map(|x| x.1.clone()).collect();
+        let _ = write!(s, " S={}", if hashes.is_empty() { "-".to_string() } else { hashes.join(",") });
+        for (i, (sum, h)) in snaps.iter().enumerate() {
+            if self.prev.get(i) != Some(h) {
+                let _ = write!(s, " C{}={}", i, sum);
+            }
+        }
+        self.prev = hashes;
+        s
+    }
+}
+
+fn run_case<C: Crypto>(w: &mut World<C>, out: &mut Out, case: &Case) {
+    out.case(case.id, &case.kind);
+    w.reset();
+    let (mut acc, mut rej) = (false, false);
+    for op in &case.ops {
+        let m = kv(op);
+        let mut words = op.split_whitespace();
+        let o = match words.next().unwrap_or("") {
+            "s" => w.op_s(&m),
+            "t" => w.op_t(words.next().unwrap_or(""), &m),
+            "x" => w.op_x(words.next().unwrap_or(""), &m),
+            "r" => {
+                let o = w.op_r(words.next().unwrap_or(""), &m, out);
+                if o.starts_with("ok") {
+                    acc = true
+                } else if o.starts_with("err") {
+                    rej = true
+                }
+                o
+            }
+            _ => "skip".into(),
+        };
+        out.op(op, &o);
+    }
+    if acc && rej {
+        out.buf.push_str("#nt\n");
+    }
+}
+
+// ------------------------------------------------------------------------------------------ generator
+
+#[derive(Clone)]
+struct SessCfg {
+    a: u64,
+    m: String,
+    ls: u64,
+    ps: u64,
+    ln: u64,
+    pn: Option<u64>,
+    dk: u64,
+    ek: u64,
+    tx: u64,
+    ex: Vec<(u64, bool)>,
+    expired: bool,
+}
+
+impl SessCfg {
+    fn line(&self, head: &str) -> String {
+        let mut s = format!(
+            "{} a={} m={} ls={} ps={} ln={:x} pn={} dk={} ek={} tx={}",
+            head,
+            self.a,
+            self.m,
+            self.ls,
+            self.ps,
+            self.ln,
+            self.pn.map(|n| format!("{:x}", n)).unwrap_or("-".into()),
+            self.dk,
+            self.ek,
+            self.tx
+        );
+        if !self.ex.is_empty() {
+            let v: Vec<String> = self.ex.iter().map(|(id, i)| format!("{}{}", id, if *i { "I" } else { "R" })).collect();
+            let _ = write!(s, " ex={}", v.join(","));
+        }
+        if self.expired {
+            s.push_str(" expired=1");
+        }
+        s
+    }
+    /// the peer's end of this session
+    fn mirror(&self, peer_addr: u64) -> SessCfg {
+        SessCfg {
+            a: peer_addr,
+            m: self.m.clone(),
+            ls: self.ps,
+            ps: self.ls,
+            ln: self.pn.unwrap_or(0),
+            pn: if self.ln != 0 || self.m != "N" { Some(self.ln) } else { None },
+            dk: self.ek,
+            ek: self.dk,
+            tx: 0,
+            ex: vec![],
+            expired: false,
+        }
+    }
+}
+
+fn node_id(r: &mut Rng) -> u64 {
+    match r.below(6) {
+        0 => 1,
+        1 => 0xFFFF_FFFF_FFFF_FFFE,
+        2 => 0x0102_0304_0506_0708,
+        3 => r.range(2, 255),
+        _ => r.next() | 1,
+    }
+}
+
+fn sid(r: &mut Rng) -> u64 {
+    match r.below(8) {
+        0 => 1,
+        1 => 2,
+        2 => 0xFFFF,
+        3 => *r.pick(&[4u64, 16, 256, 0x8000]),
+        _ => r.range(1, 0xFFFF),
+    }
+}
+
+struct XSpec {
+    k: &'static str,
+    pf: u64,
+    sid: u64,
+    sf: u64,
+    ctr: u64,
+    src: u64,
+    dst: u64,
+    xf: u64,
+    op: u64,
+    xid: u64,
+    pid: u64,
+    vid: u64,
+    ack: u64,
+    pl: u64,
+    ps: u64,
+}
+
+impl XSpec {
+    fn line(&self, dg: &str, t: &str) -> String {
+        format!(
+            "x {} t={} k={} pf={} sid={} sf={} ctr={} src={:x} dst={:x} xf={} op={} xid={} pid={} vid={} ack={} pl={} ps={}",
+            dg, t, self.k, self.pf, self.sid, self.sf, self.ctr, self.src, self.dst, self.xf, self.op, self.xid, self.pid, self.vid, self.ack, self.pl, self.ps
+        )
+    }
+}
+
+fn ctr_val(r: &mut Rng) -> u64 {
+    match r.below(6) {
+        0 => 0,
+        1 => 0xFFFF_FFFF,
+        2 => r.range(1, 40),
+        _ => r.below(1 << 32),
+    }
+}
+
+fn proto_part(r: &mut Rng, x: &mut XSpec, out: &mut Out) {
+    // exchange flags: initiator mostly (so that a new exchange is opened), ack / reliable / vendor / secex freely
+    let mut xf = 0u64;
+    if r.chance(4, 5) {
+        xf |= 1;
+    }
+    if r.chance(1, 3) {
+        xf |= 2;
+        out.stat("shape_ack", 1);
+    }
+    if r.chance(1, 2) {
+        xf |= 4;
+    }
+    if r.chance(1, 5) {
+        xf |= 8;
+        out.stat("shape_secex", 1);
+    }
+    if r.chance(1, 4) {
+        xf |= 16;
+        out.stat("shape_vendor", 1);
+    }
+    x.xf = xf;
+    x.op = match r.below(8) {
+        0 => 0x10,
+        1 => 0x40,
+        2 => 0x20,
+        3 => 0x00,
+        _ => r.range(1, 11),
+    };
+    x.pid = if x.op >= 0x10 || x.op == 0 { if r.chance(4, 5) { 0 } else { 1 } } else { *r.pick(&[1u64, 1, 1, 2, 0]) };
+    x.xid = if r.chance(1, 4) { *r.pick(&[0u64, 1, 0xFFFF]) } else { r.below(1 << 16) };
+    x.vid = if xf & 16 != 0 { r.below(1 << 16) } else { 0 };
+    x.ack = if xf & 2 != 0 { ctr_val(r) } else { 0 };
+}
+
+fn payload_len(r: &mut Rng, thorough: bool, out: &mut Out) -> u64 {
+    let max = 1232 - 26 - 12 - 16; // MAX_TX_BUF_SIZE - plain - proto - tag
+    let v = match r.below(20) {
+        0 => 0,
+        1 => 1,
+        2..=3 => r.range(15, 17),
+        4 => {
+            if thorough && r.chance(1, 4) {
+                max
+            } else {
+                r.range(200, 400)
+            }
+        }
+        _ => r.range(0, 48),
+    };
+    out.stat(if v == 0 { "payload_0" } else if v <= 48 { "payload_small" } else if v < max { "payload_mid" } else { "payload_max" }, 1);
+    v
+}
+
+fn gen_case(r: &mut Rng, thorough: bool, out: &mut Out) -> (String, Vec<String>) {
+    let mut ops: Vec<String> = Vec::new();
+    let mode = match r.below(10) {
+        0..=3 => "P".to_string(),
+        4..=7 => "C".to_string(),
+        8 => format!("G{}", r.range(1, 0xFFF0)),
+        _ => "P".to_string(),
+    };
+    out.stat(&format!("mode_{}", &mode[..1]), 1);
+    let peer_addr = r.range(1, 3);
+    // the receiver's session under test
+    let mut rx = SessCfg {
+        a: peer_addr,
+        m: mode.clone(),
+        ls: sid(r),
+        ps: sid(r),
+        ln: if mode == "P" { 0 } else { node_id(r) },
+        pn: if mode == "P" { if r.chance(1, 4) { None } else { Some(0) } } else { Some(node_id(r)) },
+        dk: 1,
+        ek: 2,
+        tx: r.below(1 << 28),
+        ex: vec![],
+        expired: r.chance(1, 25),
+    };
+    if mode.starts_with('G') {
+        // a group session has one key and one session id for both directions
+        rx.ek = rx.dk;
+        rx.ps = rx.ls;
+    }
+    if r.chance(1, 3) {
+        for _ in 0..r.range(1, 3) {
+            rx.ex.push((r.below(1 << 16), r.chance(1, 2)));
+        }
+    }
+    // further sessions in the table: other keys, same or other peer, sometimes the same local id on another address
+    let mut table = vec![rx.clone()];
+    let n_other = r.below(3);
+    for j in 0..n_other {
+        let mut o = SessCfg {
+            a: if r.chance(1, 2) { peer_addr } else { r.range(1, 3) },
+            m: (*r.pick(&["P", "C", "C", "N"])).to_string(),
+            ls: if r.chance(1, 3) { rx.ls ^ (1 << r.below(16)) } else { sid(r) },
+            ps: sid(r),
+            ln: node_id(r),
+            pn: Some(node_id(r)),
+            dk: 10 + 2 * j,
+            ek: 11 + 2 * j,
+            tx: r.below(1 << 28),
+            ex: vec![],
+            expired: false,
+        };
+        if o.m == "N" {
+            o.ls = 0;
+            o.ps = 0;
+            o.pn = if r.chance(1, 2) { Some(node_id(r)) } else { None };
+        }
+        if o.ls == 0 && o.m != "N" {
+            o.ls = 7;
+        }
+        if o.a == rx.a && o.ls == rx.ls {
+            o.ls = (rx.ls % 0xFFFE) + 1;
+        }
+        table.push(o);
+    }
+    // the session under test is not always first in the table
+    let pos = r.below(table.len() as u64) as usize;
+    table.swap(0, pos);
+    for s in &table {
+        ops.push(s.line("s"));
+    }
+    out.stat(&format!("table_size_{}", table.len()), 1);
+
+    // senders: the mirror, and the transplants
+    let good = rx.mirror(9);
+    ops.push(good.line("t good"));
+    let mut senders: Vec<(&str, SessCfg)> = Vec::new();
+    {
+        let mut s = good.clone();
+        s.ek = 40; // some other key
+        senders.push(("wrongkey", s));
+        let mut s = good.clone();
+        s.ek = rx.ek; // what the receiver itself would send: opposite direction
+        senders.push(("reflect", s));
+        let mut s = good.clone();
+        s.ln = good.ln ^ (1u64 << r.below(64)); // another source node id
+        if s.ln == 0 {
+            s.ln = 5;
+        }
+        senders.push(("othernode", s));
+        let mut s = good.clone();
+        s.m = if mode.starts_with('G') { "C".into() } else { format!("G{}", r.range(1, 0xFFF0)) };
+        senders.push(("othermode", s));
+        if table.len() > 1 {
+            // the mirror of another session of the table, but addressed to the session under test
+            let o = &table[if pos == 0 { 1 } else { 0 }];
+            let mut s = o.mirror(9);
+            s.ps = rx.ls;
+            senders.push(("othersess", s));
+        }
+    }
+    for (n, s) in &senders {
+        ops.push(s.line(&format!("t {}", n)));
+    }
+
+    // datagrams
+    let n_dg = r.range(1, 3);
+    let mut dgs: Vec<(String, u64)> = Vec::new(); // name, total length estimate
+    let mut next_ctr = ctr_val(r).min(0xFFFF_FF00);
+    for i in 0..n_dg {
+        let mut x = XSpec { k: "pre", pf: 0, sid: 0, sf: 0, ctr: 0, src: 0, dst: 0, xf: 0, op: 0, xid: 0, pid: 0, vid: 0, ack: 0, pl: 0, ps: r.below(1000) };
+        proto_part(r, &mut x, out);
+        x.pl = payload_len(r, thorough, out);
+        let is_group = mode.starts_with('G');
+        if is_group || r.chance(1, 2) {
+            // header shape chosen here, not by pre_send
+            x.k = "raw";
+            x.sid = good.ps;
+            x.ctr = next_ctr;
+            next_ctr += r.range(1, 3);
+            let mut pf = 0u64;
+            if is_group || r.chance(1, 3) {
+                pf |= 4;
+                x.src = good.ln;
+            }
+            match r.below(if is_group { 3 } else { 6 }) {
+                0 => {
+                    pf |= 1;
+                    x.dst = rx.ln;
+                }
+                1 => {
+                    pf |= 2;
+                    x.dst = r.below(1 << 16);
+                }
+                2 if !is_group => {
+                    pf |= 3;
+                }
+                _ => {}
+            }
+            if is_group && pf & 3 == 0 {
+                pf |= 2;
+                x.dst = 0x1234;
+            }
+            x.pf = pf;
+            let mut sf = 0u64;
+            if is_group {
+                sf |= 1;
+            }
+            if r.chance(1, 8) {
+                sf |= 0x20;
+            }
+            if r.chance(1, 6) {
+                sf |= 0x40;
+            }
+            if r.chance(1, 10) {
+                sf |= 0x80;
+            }
+            x.sf = sf;
+            out.stat("enc_raw", 1);
+            out.stat(&format!("shape_pf_{}", pf), 1);
+        } else {
+            out.stat("enc_pre", 1);
+        }
+        let name = format!("d{}", i);
+        ops.push(x.line(&name, "good"));
+        // exact length: plain header (pre_send on a PASE/CASE session emits neither node id) + protocol header + payload + tag
+        let hl = if x.k == "raw" { 8 + if x.pf & 4 != 0 { 8 } else { 0 } + match x.pf & 3 { 1 => 8, 2 => 2, _ => 0 } } else { 8 };
+        let xl = 6 + if x.xf & 16 != 0 { 2 } else { 0 } + if x.xf & 2 != 0 { 4 } else { 0 };
+        let est = hl + xl + x.pl + 16;
+        dgs.push((name, est));
+    }
+
+    // deliveries. First every single-bit flip of d0 (state must not move), then the clean datagrams,
+    // replays, transplants, truncations / extensions, then flips again on a used session.
+    let (d0, est0) = dgs[0].clone();
+    let max_bits = est0 * 8 + 8; // one byte beyond the end => `skip`
+    let exhaustive = est0 <= 120 || thorough;
+    if exhaustive {
+        for b in 0..max_bits {
+            ops.push(format!("r {} a={} m=flip:{}", d0, peer_addr, b));
+        }
+        out.stat("flips_exhaustive_cases", 1);
+    } else {
+        // long datagram: every header / protocol-header / tag bit, a sample of the payload bits
+        for b in 0..(40 * 8) {
+            ops.push(format!("r {} a={} m=flip:{}", d0, peer_addr, b));
+        }
+        for _ in 0..200 {
+            ops.push(format!("r {} a={} m=flip:{}", d0, peer_addr, r.below(max_bits)));
+        }
+        for b in (est0.saturating_sub(60) * 8)..max_bits {
+            ops.push(format!("r {} a={} m=flip:{}", d0, peer_addr, b));
+        }
+    }
+    // truncations and extensions
+    for n in 0..(est0.min(70) + 1) {
+        ops.push(format!("r {} a={} m=trunc:{}", d0, peer_addr, n));
+    }
+    for _ in 0..6 {
+        ops.push(format!("r {} a={} m=trunc:{}", d0, peer_addr, r.below(est0 + 4)));
+    }
+    for e in ["00", "ff", "0000000000000000000000000000000000", "a5a5a5"] {
+        ops.push(format!("r {} a={} m=ext:{}", d0, peer_addr, e));
+    }
+    // from another address
+    ops.push(format!("r {} a={} m=none", d0, (peer_addr % 3) + 1));
+    // transplants: same header fields, produced by a session that differs in one respect
+    for (n, _) in &senders {
+        let mut x = XSpec { k: "pre", pf: 0, sid: 0, sf: 0, ctr: 0, src: 0, dst: 0, xf: 5, op: 2, xid: 77, pid: 1, vid: 0, ack: 0, pl: r.range(0, 20), ps: 3 };
+        if *n == "othermode" || mode.starts_with('G') {
+            x.k = "raw";
+            x.sid = good.ps;
+            x.ctr = next_ctr;
+            next_ctr += 1;
+            x.pf = if mode.starts_with('G') { 6 } else { 0 };
+            x.src = good.ln;
+            x.dst = 0x1234;
+            x.sf = if mode.starts_with('G') { 1 } else { 0 };
+        }
+        let name = format!("t_{}", n);
+        ops.push(x.line(&name, n));
+        ops.push(format!("r {} a={} m=none", name, peer_addr));
+        out.stat(&format!("transplant_{}", n), 1);
+    }
+    // the clean datagrams (shuffled order now and then), each followed by a replay
+    let mut order: Vec<usize> = (0..dgs.len()).collect();
+    if r.chance(1, 3) {
+        order.reverse();
+    }
+    for i in &order {
+        ops.push(format!("r {} a={} m=none", dgs[*i].0, peer_addr));
+        if r.chance(1, 2) {
+            ops.push(format!("r {} a={} m=none", dgs[*i].0, peer_addr));
+        }
+    }
+    // header of one datagram in front of the cipher text of another
+    if dgs.len() >= 2 {
+        ops.push(format!("r {} a={} m=hdr:{}", dgs[0].0, peer_addr, dgs[1].0));
+        ops.push(format!("r {} a={} m=hdr:{}", dgs[1].0, peer_addr, dgs[0].0));
+    }
+    // a fresh datagram, flipped on the now used session (sample), then delivered
+    {
+        let mut x = XSpec { k: "pre", pf: 0, sid: 0, sf: 0, ctr: 0, src: 0, dst: 0, xf: 0, op: 0, xid: 0, pid: 0, vid: 0, ack: 0, pl: r.range(0, 24), ps: 9 };
+        proto_part(r, &mut x, out);
+        if mode.starts_with('G') {
+            x.k = "raw";
+            x.sid = good.ps;
+            x.ctr = next_ctr + 5;
+            x.pf = 6;
+            x.src = good.ln;
+            x.dst = 0x1234;
+            x.sf = 1;
+        }
+        ops.push(x.line("late", "good"));
+        for _ in 0..40 {
+            ops.push(format!("r late a={} m=flip:{}", peer_addr, r.below(60 * 8)));
+        }
+        ops.push(format!("r late a={} m=xor:{}:{}", peer_addr, r.below(40), hex(&r.bytes(3))));
+        ops.push(format!("r late a={} m=none", peer_addr));
+        ops.push(format!("r late a={} m=none", peer_addr));
+    }
+    ("m".to_string() + &mode[..1], ops)
+}
+
+const RULE: &str = "a case = one receiving node with 1-3 installed sessions (PASE/CASE/group/unsecured), sending sessions (the mirror of the session under test and transplants: other key, opposite direction, other source node id, other mode, mirror of another session of the table) and 1-3 datagrams encoded by the real pre_send/encode (header shapes: source/destination node id present or not, groupcast/unicast/both DSIZ bits, MSG_EXT/CONTROL/PRIVACY, ack/vendor/secex/reliable/initiator; payload 0..max); deliveries: every single-bit flip over the whole first datagram (exhaustive; long datagrams in the quick tier: all header/protocol-header/tag bits + a sample), every truncation up to 70 bytes, extensions, another peer address, the transplants, the clean datagrams, replays, header splices; non-trivial = at least one delivery accepted and one rejected; distinct = by operation list";
+
+pub fn gen(a: &Args) -> String {
+    let mut r = Rng::new(a.seed);
+    let mut out = Out::default();
+    out.buf.push_str(&format!("#rule {}\n", RULE));
+    let matter = Matter::new(&TEST_DEV_DET, TEST_DEV_COMM, &TEST_DEV_ATT, 0);
+    let crypto = test_only_crypto();
+    let mut w = World { matter: &matter, crypto: &crypto, installed: 0, senders: HashMap::new(), dgs: HashMap::new(), prev: vec![] };
+    let n_cases = if a.thorough { 1500 } else { 160 };
+    for id in 0..n_cases {
+        let mut cr = r.fork();
+        let (kind, ops) = gen_case(&mut cr, a.thorough, &mut out);
+        run_case(&mut w, &mut out, &Case { id, kind, ops });
+    }
+    out.finish()
+}
+
+pub fn replay(a: &Args) -> String {
+    let text = std::fs::read_to_string(a.input.as_ref().expect("--in")).expect("read input");
+    let mut out = Out::default();
+    let matter = Matter::new(&TEST_DEV_DET, TEST_DEV_COMM, &TEST_DEV_ATT, 0);
+    let crypto = test_only_crypto();
+    let mut w = World { matter: &matter, crypto: &crypto, installed: 0, senders: HashMap::new(), dgs: HashMap::new(), prev: vec![] };
+    for c in parse_cases(&text) {
+        run_case(&mut w, &mut out, &c);
+    }
+    out.finish()
 }
